@@ -23,6 +23,13 @@ ck.regen()
 mods = ck.props_modules() + ck.props_modules('C04')
 if mods:
     ck.lean(mods)
+    ck.require_theorems([
+        'LbzVerif.Props.C04.unrle_rle',
+        'LbzVerif.Props.C01.Mtf.un_mtf',
+        'LbzVerif.Props.C01.Mtf.doMtf_eq_spec',
+        'LbzVerif.Props.C01.Prefix.decode_encode',
+        'LbzVerif.Props.C04.collect_pack',
+    ])
 inproc.run_libs(ck, ['w10_mtf', 'w11_prefix'])
 exe = ck.build_lbzip2(asan=False)
 evals = 0
